@@ -626,10 +626,10 @@ class AbstractRowWriter(object):
             self._target_stream = io.open(self._target_path, "w", encoding=data_format.encoding, newline="")
             self._has_opened_target_stream = True
         else:
-            try:
-                self._target_path = target.name
-            except AttributeError:
-                self._target_path = "<io>"
+            # NOTE: Streams might have no name at all, or one that is no text, for example None for a
+            #  tempfile.SpooledTemporaryFile or the number of the file descriptor for open(fd).
+            target_name = getattr(target, "name", None)
+            self._target_path = target_name if (isinstance(target_name, str) and target_name) else "<io>"
             self._target_stream = target
         self._location = errors.Location(self.target_path, has_cell=True)
 
